@@ -600,11 +600,24 @@ func verifSpecCL(lowered string) primitive.ConsistencyLevel {
 // C01: every successfully decoded frame of an accepted version gets exactly one answer initiated:
 // one local frame or one backend request. A frame that cannot be decoded closes the connection
 // (error return) without any answer.
+// clientOK: what the connection layer may assume of the client object whose Receive it calls - established
+// by Proxy.handle before the connection's goroutines are started (checked there), never changed afterwards
+// (the fields are immutable).
+//@ macro clientOK(c) = c != nil && c.proxy != nil && c.conn != nil && c.preparedSystemQuery != nil
+
+//@ func proxy.Proxy.handle [C17, C01]
+//@   local $hStarted bool = false
+//@   local $hClientOK bool = false
+//@   requires p != nil && p.mu != nil && p.clients != nil
+//@   before proxycore.Conn.Start#1 set $hStarted = true; $hClientOK = clientOK(cl) && cl.proxy == p && cl.codec == codecs.CustomRawCodec
+//@   ensures starts-well-formed-client: $hStarted ==> $hClientOK
+//@   modifies *
+
 //@ func proxy.client.Receive [C01, C13, C14]
 //@   requires ring: ringOK(c.proxy) [C10]
 //@   requires prepared-table: preparedOK(c) [C10]
 //@   ensures prepared-table: preparedOK(c) [C10]
-//@   requires c != nil && c.proxy != nil && c.conn != nil && c.codec != nil && inv(c.proxy) && c.proxy.cluster != nil && c.preparedSystemQuery != nil
+//@   requires clientOK(c) && c.codec != nil && inv(c.proxy) && c.proxy.cluster != nil
 //@   requires !$rxDecoded && !$rxBodyTried && !$selReached && !$useTried
 //@   after frame.RawCodec.DecodeRawFrame#1 set $rxDecoded = (result1 == nil); $rxVersion = result0.Header.Version; $rxStream = result0.Header.StreamId
 //@   after frame.RawCodec.DecodeBody#1 set $rxBodyTried = true; $rxBodyOK = (result1 == nil); $rxMsg = result0.Message
